@@ -928,7 +928,7 @@ func (c *fctx) forStmt(depth int, s *ast.ForStmt, rest func(int) string) string 
 	return out
 }
 
-// NAME <abstract objects> [rec_] fuel <free> <lf> <carried>
+// NAME <abstract objects> [rec_] [rfuel] fuel <globals> <free> <lf> <carried>
 func (c *fctx) loopCall(fr *loopFrame, lf string) string {
 	parts := append([]string{fr.name}, c.absArgs(c.f)...)
 	if fr.usesRec {
@@ -938,6 +938,9 @@ func (c *fctx) loopCall(fr *loopFrame, lf string) string {
 		parts = append(parts, "rfuel")
 	}
 	parts = append(parts, "fuel")
+	for _, g := range c.f.globals {
+		parts = append(parts, globalName(g))
+	}
 	parts = append(parts, fr.free...)
 	parts = append(parts, lf)
 	parts = append(parts, fr.carried...)
@@ -1005,6 +1008,13 @@ func (c *fctx) translateLoop(s *ast.ForStmt) *loopFrame {
 		binders = append(binders, "(rfuel : nat)")
 	}
 	binders = append(binders, "(fuel : nat)")
+	for _, g := range c.f.globals {
+		if isIntTable(g.Type()) {
+			binders = append(binders, fmt.Sprintf("(%s : list Z)", globalName(g)))
+		} else {
+			binders = append(binders, fmt.Sprintf("(%s : %s)", globalName(g), c.coqType(s, g.Type())))
+		}
+	}
 	for _, n := range fr.free {
 		binders = append(binders, c.binder(s, n))
 	}
